@@ -235,7 +235,7 @@ def c12_arithmetic(E):
         m.remove_reactions([r1])
     before = observe(m)
     what = E.pick("operation", ["Reaction.copy", "Metabolite.copy", "r1+r2", "r1-r2", "r1*k", "r1+0", "0+r1", "sum([r1])",
-                                "no_rule+r1", "r1+no_rule"])
+                                "no_rule+r1", "r1+no_rule", "empty.copy", "empty*2", "empty+0"])
     E.note(operation=what)
     if what == "Metabolite.copy":
         res = m.metabolites.A.copy()
@@ -258,6 +258,12 @@ def c12_arithmetic(E):
         res = 0 + r1
     elif what == "sum([r1])":
         res = sum([r1])
+    elif what == "empty.copy":
+        res = m.reactions.EMPTY.copy()          # a reaction without metabolites or genes
+    elif what == "empty*2":
+        res = m.reactions.EMPTY * 2
+    elif what == "empty+0":
+        res = m.reactions.EMPTY + 0
     elif what == "no_rule+r1":
         res = m.reactions.DM_B + r1         # the left operand has no gene rule, the right one has
     elif what == "r1+no_rule":
@@ -271,7 +277,7 @@ def c12_arithmetic(E):
         model_nodes = set(id(n) for r in m.reactions for n in ast.walk(r.gpr)) | set(id(r.gpr) for r in m.reactions)
         model_nodes |= set(id(n) for n in ast.walk(r1.gpr)) | {id(r1.gpr)}
         model_objs |= set(id(x) for x in list(r1._metabolites) + list(r1._genes))
-        E.prove(res is not r1 and res._model is None and not any(id(x) in model_objs for x in list(res._metabolites) + list(res._genes))
+        E.prove(res is not r1 and res is not m.reactions.EMPTY and res._model is None and not any(id(x) in model_objs for x in list(res._metabolites) + list(res._genes))
                 and id(res.gpr) not in model_nodes and not any(id(n) in model_nodes for n in ast.walk(res.gpr)),
                 "result-detached", what=what)
         # mutating the result must not reach the model
